@@ -91,5 +91,14 @@ CLAIMS = {
         "note": TRUST + "transcription of the vendor layout rows (each cites its Lua line, constants re-read from the Lua)",
         "technique": "abstract interpretation in a bit-field/interval/affine domain with trace partitioning (static analysis)",
     },
+    "C11": {
+        "text": "StateResponse._parse is interpreted abstractly over an abstract payload built from the vendor 0xC0 layout (every reference "
+                "field a source over its full raw domain, don't-care bits free, symbolic length >= 16); in every guard region each of the 19 "
+                "attributes equals the reported field, optional fields are None exactly where the length does not cover them; "
+                "_parse_temperature's decision tree is checked leaf by leaf in a linear-form domain with the trunc relation (None iff "
+                "0xFF, within one degree, exact tenths in Celsius); _update_state and the getters map each attribute unchanged.",
+        "note": TRUST + "vendor layout rows (Lua lines cited); exact rationals stand for floats of halves/tenths",
+        "technique": "abstract interpretation in a bit-field/linear-form domain with trace partitioning + def-use mapping (static analysis)",
+    },
 }
 NOT_APPLICABLE = {}
